@@ -8,6 +8,7 @@ import (
 	"fmt"
 	"io"
 	"net"
+	"strings"
 	"sync"
 	"time"
 
@@ -94,6 +95,31 @@ func Dial(localIP, addr string, o Opts, timeout time.Duration) (*Peer, error) {
 		return nil, err
 	}
 	return p, nil
+}
+
+// DialPatient is Dial for honest scripted peers whose failure to connect would be held against the client: it waits for
+// the client's listener to come up ("refused") and gives a handshake that timed out two more chances with longer
+// deadlines (a loaded machine is slow, not wrong).
+func DialPatient(localIP, addr string, o Opts) (*Peer, error) {
+	var p *Peer
+	var err error
+	slow := 0
+	for try := 0; try < 40; try++ {
+		p, err = Dial(localIP, addr, o, time.Duration(2+4*slow)*time.Second)
+		if err == nil {
+			return p, nil
+		}
+		msg := err.Error()
+		if slow < 2 && (strings.Contains(msg, "timeout") || strings.Contains(msg, "deadline")) {
+			slow++
+			continue
+		}
+		if !strings.Contains(msg, "refused") {
+			return nil, err
+		}
+		time.Sleep(25 * time.Millisecond)
+	}
+	return nil, err
 }
 
 // Accept performs the handshakes on an accepted connection (the client dialed us).
